@@ -671,6 +671,12 @@ class EvalMixin(object):
                 return self.dict_get(cell, idx, st, node, strict=True)
             if isinstance(cell, HObj) and cell.cls == "Scope":
                 return self.scope_getattr(base, cell, idx, st, node)
+            if isinstance(cell, HObj) and cell.cls == "ObjDict":
+                return st.alloc(HObj("Scope1", {}))     # a member object; the contract observes its stores by anchors
+            if isinstance(cell, HRecList) and isinstance(idx, VInt):
+                j = self.norm_index(idx.e, cell.n)
+                self.safety(st, "IndexError", z3.And(0 <= j, j < cell.n), node, "list index out of range")
+                return cell.elem(j, st)
         raise OutOfSubset("subscript of %r" % (base,), node)
 
     def dict_get(self, cell, key, st, node, strict):
